@@ -203,10 +203,12 @@ mod codecs {
     use crate::{Codec, Header, Member, Message};
     use bytes::BufMut;
 
-    fn any_message() -> Message<u16> {
+    fn any_message_in(lo: u8, hi: u8) -> Message<u16> {
         let n = kani::any::<u8>();
         let t = kani::any::<u16>();
-        match kani::any::<u8>() % 11 {
+        let k = kani::any::<u8>();
+        kani::assume(lo <= k && k < hi);
+        match k {
             0 => Message::Ping(n),
             1 => Message::Ack(n),
             2 => Message::PingReq { target: t, probe_number: n },
@@ -247,8 +249,8 @@ mod codecs {
         assert!(lim.get_ref().len() <= short);
     }
 
-    fn header_roundtrip<C: Codec<u16>>(mut codec: C) {
-        let h = Header { src: kani::any::<u16>(), src_incarnation: kani::any::<u16>(), dst: kani::any::<u16>(), message: any_message() };
+    fn header_roundtrip<C: Codec<u16>>(mut codec: C, lo: u8, hi: u8) {
+        let h = Header { src: kani::any::<u16>(), src_incarnation: kani::any::<u16>(), dst: kani::any::<u16>(), message: any_message_in(lo, hi) };
         let mut buf = alloc::vec::Vec::new();
         assert!(codec.encode_header(&h, &mut buf).is_ok());
         let n = buf.len();
@@ -298,8 +300,22 @@ mod codecs {
     #[cfg(feature = "postcard-codec")]
     #[kani::proof]
     #[kani::unwind(12)]
-    fn c20_postcard_header() {
-        header_roundtrip(crate::PostcardCodec);
+    fn c20_postcard_header_a() {
+        header_roundtrip(crate::PostcardCodec, 0, 2); // Ping, Ack
+    }
+
+    #[cfg(feature = "postcard-codec")]
+    #[kani::proof]
+    #[kani::unwind(12)]
+    fn c20_postcard_header_b() {
+        header_roundtrip(crate::PostcardCodec, 2, 6); // PingReq, IndirectPing, IndirectAck, ForwardedAck
+    }
+
+    #[cfg(feature = "postcard-codec")]
+    #[kani::proof]
+    #[kani::unwind(12)]
+    fn c20_postcard_header_c() {
+        header_roundtrip(crate::PostcardCodec, 6, 11); // Announce, Feed, Gossip, Broadcast, TurnUndead
     }
 
     #[cfg(feature = "postcard-codec")]
@@ -319,8 +335,22 @@ mod codecs {
     #[cfg(feature = "bincode-codec")]
     #[kani::proof]
     #[kani::unwind(12)]
-    fn c20_bincode_header() {
-        header_roundtrip(crate::BincodeCodec(bincode::config::standard()));
+    fn c20_bincode_header_a() {
+        header_roundtrip(crate::BincodeCodec(bincode::config::standard()), 0, 2);
+    }
+
+    #[cfg(feature = "bincode-codec")]
+    #[kani::proof]
+    #[kani::unwind(12)]
+    fn c20_bincode_header_b() {
+        header_roundtrip(crate::BincodeCodec(bincode::config::standard()), 2, 6);
+    }
+
+    #[cfg(feature = "bincode-codec")]
+    #[kani::proof]
+    #[kani::unwind(12)]
+    fn c20_bincode_header_c() {
+        header_roundtrip(crate::BincodeCodec(bincode::config::standard()), 6, 11);
     }
 
     #[cfg(feature = "bincode-codec")]
